@@ -1,5 +1,5 @@
 (* Unimock.Props.C13 -- property theorems only. *)
-From Unimock Require Import Model.RunChain Proofs.Chain.
+From Unimock Require Import Model.RunChain Proofs.Chain Proofs.ChainRun.
 From Coq Require Import Permutation.
 
 (* a reference shows its own value ... *)
@@ -26,6 +26,35 @@ Proof. exact push_mut_conserves. Qed.
 
 Theorem C13_drop_releases_all : forall c, cells (drop_chain c) = [] /\ released (drop_chain c) = all_values c.
 Proof. exact drop_releases_all. Qed.
+
+(* one instance with its delegation helper (values lent by answers during a `&self` provided method live in the
+   HELPER's chain): lending directly or through the helper, `&mut self` provided calls and observations release
+   nothing - both chains only grow; make_mut releases exactly the instance's own earlier values and leaves the
+   helper's chain alone *)
+Theorem C13_only_make_mut_releases : forall (others : N) (ci : cinst) (o : cop),
+  is_make_mut o = false ->
+  let ci' := fst (cop_step others ci o) in
+  released (ci_chain ci') = released (ci_chain ci) /\
+  released (ci_helper ci') = released (ci_helper ci) /\
+  (exists e1, cells (ci_chain ci') = cells (ci_chain ci) ++ e1)%list /\
+  (exists e2, cells (ci_helper ci') = cells (ci_helper ci) ++ e2)%list.
+Proof. exact step_releases_nothing. Qed.
+
+Theorem C13_make_mut_releases_own_chain_only : forall (others : N) (ci : cinst) (ty v : N),
+  let ci' := fst (cop_step others ci (CMut ty v)) in
+  released (ci_chain ci') = all_values (ci_chain ci) /\ ci_helper ci' = ci_helper ci /\ ci_held ci' = [].
+Proof. exact make_mut_releases_own_only. Qed.
+
+(* over ANY sequence of operations on the instance: what was lent through the helper is never released and
+   never reordered, and every reference the caller still holds points at a value that is still in a chain *)
+Theorem C13_helper_values_never_released : forall (others : N) (ops : list cop) (ci : cinst),
+  released (ci_helper (fst (session others ci ops))) = released (ci_helper ci)
+  /\ exists e, cells (ci_helper (fst (session others ci ops))) = (cells (ci_helper ci) ++ e)%list.
+Proof. exact helper_values_never_released. Qed.
+
+Theorem C13_held_references_point_at_live_values : forall (others : N) (ops : list cop) (ci : cinst),
+  held_alive ci -> held_alive (fst (session others ci ops)).
+Proof. exact session_held_alive. Qed.
 
 (* concurrently through a shared &Unimock, for EVERY schedule of the try_insert
    steps, any number of threads and values: every reference obtained shows its
